@@ -100,15 +100,6 @@ func joinContract(args []StrV) StrV {
 func (e *Engine) registerFSIntrinsics() {
 	in := e.intrinsics
 	const G = "github.com/ddddddO/gtree."
-	in[G+"verifName"] = func(r *Run, fr *frame, a []Value) Value {
-		t := r.fresh("n_"+a[0].(StrV).concrete(), sortStr)
-		for _, bad := range []string{"", ".", ".."} {
-			r.pc = append(r.pc, mkNot(mkEq(t, mkStrLit(bad))))
-		}
-		r.pc = append(r.pc, mkNot(mk("str.contains", sortBool, t, mkStrLit("/"))))
-		r.pc = append(r.pc, mkNot(mk("str.contains", sortBool, t, mkStrLit("\n"))))
-		return StrV{Segs: []Seg{{Atom: t}}}
-	}
 	in[G+"verifPathElems"] = func(r *Run, fr *frame, a []Value) Value {
 		el, abs := splitElems(a[0].(StrV))
 		var data []Value
@@ -217,10 +208,16 @@ func (e *Engine) registerFSIntrinsics() {
 	refused := func(r *Run) Value { return *r.global(r.eng.prog.ImportedPackage("github.com/ddddddO/gtree").Var("verifErrRefused")) }
 	in["os.Stat"] = func(r *Run, fr *frame, a []Value) Value {
 		k := r.concreteInt(callH(r, fr, "vfsStat", a[0]), "vfsStat")
-		if k == 0 {
+		switch k {
+		case 0:
 			return Tuple{Iface{}, notExist(r)}
+		case 3:
+			return Tuple{Iface{}, refused(r)}
 		}
 		return Tuple{Iface{T: r.eng.prog.ImportedPackage("io/fs").Type("FileInfo").Type(), V: &fileInfoObj{dir: k == 1}}, Iface{}}
+	}
+	in["os.IsNotExist"] = func(r *Run, fr *frame, a []Value) Value {
+		return r.equal(nil, a[0], notExist(r))
 	}
 	in["os.MkdirAll"] = func(r *Run, fr *frame, a []Value) Value {
 		if callH(r, fr, "vfsMkdirAll", a[0]).(BoolV).C {
@@ -266,6 +263,14 @@ func (e *Engine) registerVerifyIntrinsics() {
 		notExist := *r.global(r.eng.prog.ImportedPackage("io/fs").Var("ErrNotExist"))
 		skipAll := *r.global(r.eng.prog.ImportedPackage("io/fs").Var("SkipAll"))
 		skipDir := *r.global(r.eng.prog.ImportedPackage("io/fs").Var("SkipDir"))
+		if len(list.Data) == 1 && list.Data[0].(StrV).isConcrete() && list.Data[0].(StrV).concrete() == "!file" {
+			// the root of the walk is a regular file: fs.Stat(fsys, ".") fails with ENOTDIR and WalkDir hands that error to fn
+			res := r.call(fr, fn, []Value{strLit("."), Iface{}, *r.global(gp.Var("verifErrRefused"))}).(Iface)
+			if res.T != nil && (r.equal(nil, res, skipAll).C || r.equal(nil, res, skipDir).C) {
+				return Iface{}
+			}
+			return res
+		}
 		if list.Nil || len(list.Data) == 0 {
 			res := r.call(fr, fn, []Value{strLit("."), Iface{}, notExist}).(Iface)
 			if res.T != nil && (r.equal(nil, res, skipAll).C || r.equal(nil, res, skipDir).C) {
